@@ -221,27 +221,33 @@ def _wiring(ctx, rel, cls):
         return sorted({n.id for n in ast.walk(node) if isinstance(n, ast.Name) and pred(n.id)})
     written = []
 
-    def write_dict(h5file, groupname, data, overwrite=True):
+    import pybrops.core.util.h5py as _H
+
+    def write_dict(h5file, groupname, in_dict, overwrite=True):
         # contract of h5py_File_write_dict (proved above): after the call path groupname+k holds data[k]; None leaves nothing
+        data = in_dict
         written.append((groupname, dict(data), overwrite))
         for k, v in data.items():
             h5file.map.pop(groupname + k, None)
             if v is not None:
                 h5file.map[groupname + k] = v
-    ov_t = {"h5py": _H5, "h5py_File_write_dict": write_dict}
+    ov_t = {"h5py": _H5, "h5py_File_write_dict": loopcut.like(_H.h5py_File_write_dict, write_dict)}
     ov_t.update({n: (lambda *a, **k: None) for n in names(tnode, lambda s: s.startswith("check_"))})
     to = loopcut.Extracted(rel + ":" + cls + ".to_hdf5", overrides=ov_t)
 
     def reader(kind):
-        def rd(h5file, path):
+        def rd(h5file, fieldname):
+            path = fieldname
             if path not in h5file.map:
                 raise KeyError("read of a path that was never written: %s" % path)
             return (kind, h5file.map[path])
         return rd
     ov_f = {"h5py": _H5}
-    ov_f.update({n: reader(n[len("h5py_File_read_"):]) for n in names(fnode, lambda s: s.startswith("h5py_File_read_"))})
+    ov_f.update({n: loopcut.like(getattr(_H, n), reader(n[len("h5py_File_read_"):]))
+                 for n in names(fnode, lambda s: s.startswith("h5py_File_read_")) if hasattr(_H, n)})
 
-    def has_group(h5file, path):
+    def has_group(*a, **k):
+        h5file, path = (list(a) + list(k.values()))[:2]
         if path not in h5file:
             raise LookupError("group %s missing" % path)
     ov_f.update({n: (has_group if n == "check_h5py_File_has_group" else (lambda *a, **k: None))
@@ -313,4 +319,4 @@ def u_h5_wiring(ctx):
             _wiring(ctx, rel, cls)
         except Exception as ex_:
             import traceback
-            ctx.record("%s:wiring-harness-ran" % cls, False, detail=traceback.format_exc()[-900:])
+            ctx.record("%s:wiring-harness-ran" % cls, False, kind="unsupported", detail="UNSUPPORTED " + traceback.format_exc()[-900:])
